@@ -6,6 +6,7 @@ ROOT = os.path.dirname(os.path.dirname(os.path.abspath(__file__)))
 props = [json.loads(l)["id"] for l in open(os.path.join(ROOT, "properties.jsonl"))]
 na_file = os.path.join(ROOT, "not_applicable.json")
 na_reasons = json.load(open(na_file)) if os.path.exists(na_file) else {}
+accepted = set(json.load(open(os.path.join(ROOT, "claimed.json"))))  # checks accepted by the maintainer after R7
 checks = []
 claimed = set()
 for p in sorted(glob.glob(os.path.join(ROOT, "checks.d", "C*.json"))):
@@ -13,6 +14,8 @@ for p in sorted(glob.glob(os.path.join(ROOT, "checks.d", "C*.json"))):
     if s.get("disabled"):
         continue
     pid = s["id"]
+    if pid not in accepted:
+        continue
     claimed.add(pid)
     checks.append({
         "property_id": pid,
